@@ -25,7 +25,7 @@ Routes == {"api", "tool"}
 IntPool   == {"0", "1", "-1", "42", "2147483648", "9223372036854775808", "-9223372036854775809",
               "1000000000000000000000000000000"}
 FloatPool == {"0.0", "-0.0", "0.1", "1.5", "-2.5", "1e+16", "1e+22", "1e-07", "5e-324",
-              "1.7976931348623157e+308", "123456.789", "100.0"}
+              "1.7976931348623157e+308", "123456.789", "100.0", "1.5e-07", "2.5e+20", "-3.25e-05"}
 OtherPool == {<<"bool", "True">>, <<"bool", "False">>, <<"null", "None">>}
 
 NumCases == {[t |-> "int", s |-> <<>>, lit |-> x] : x \in IntPool}
